@@ -185,7 +185,10 @@ func zzRunes() []rune {
 	rs := make([]rune, n)
 	alpha := vn.Param("ALPHA", 0)
 	for i := range rs {
-		if alpha == 1 {
+		if alpha == 2 {
+			// comment alphabet: slash, star, a letter
+			rs[i] = []rune{'/', '*', 'a'}[vn.Pick(3)]
+		} else if alpha == 1 {
 			// representative alphabet, to drive the comment / label / whitespace loops deeper
 			rs[i] = []rune{'/', '*', 'a', '1', ' ', '\n', '@', 0}[vn.Pick(8)]
 		} else {
@@ -271,3 +274,30 @@ func ZZC11Parse() {
 }
 
 func init() { vn.Register("parser.ZZC11Parse", ZZC11Parse) }
+
+func zzRunesN(max int) []rune {
+	n := vn.Pick(max + 1)
+	rs := make([]rune, n)
+	for i := range rs {
+		rs[i] = vn.Rune()
+	}
+	return rs
+}
+
+// ZZC19ParseTwice (C19, two-run non-interference of the parser): the result of parsing a text
+// is the same from the initial state and after another (arbitrary) text has been parsed in
+// the same process.
+func ZZC19ParseTwice() {
+	rs1 := zzRunesN(vn.Param("N1", 1))
+	rs2 := zzRunesN(vn.Param("N2", 2))
+	pa, na, ga, ea := ParseString(string(rs2))
+	_, _, _, _ = ParseString(string(rs1))
+	pb, nb, gb, eb := ParseString(string(rs2))
+	same := (ea == nil) == (eb == nil) && len(pa) == len(pb) && len(na) == len(nb)
+	if ea == nil && eb == nil {
+		same = same && len(*ga.Types) == len(*gb.Types) && len(*ga.FunctionDefinitions) == len(*gb.FunctionDefinitions)
+	}
+	vn.Assert("C19.parse-result-independent-of-history", same)
+}
+
+func init() { vn.Register("parser.ZZC19ParseTwice", ZZC19ParseTwice) }
